@@ -97,7 +97,8 @@ class Finders:
         # the ID tag of links is in the same namespace as the other names
         previous = self.line(gfa_line.name)
       return previous
-    elif gfa_line.record_type in self.RECORDS_WITH_NAME:
+    elif gfa_line.record_type in self.RECORDS_WITH_NAME and \
+        gfa_line.__class__.NAME_FIELD is not None:
       return self.line(gfa_line.name)
     else:
       return None
